@@ -248,4 +248,11 @@ def run(P, R, tier):
     c19.comparators(P, R, 'C01.ARITH.1')
     # a verdict reaches the server in the step that produced it (one newline, one flush per message)
     c09.sender_body(P, Remap(R, {'C09.FMT.2': 'C01.FMT.2'}))
+    # a line split in the wrong place is a line the server never sent: it can announce or decide ids of its own
+    from . import c08
+    c08.line_splitting(P, R, 'C01.TAB.1')
+    # a replaced (re-announced) request is disposed through the table's cleanup, which frees its timer: a timer left
+    # behind fires on the stale record and emits a second verdict
+    disp = c19.cleanup_callers(P, R, 'C01.WMC.2')
+    c19.dispose_guards(P, R, disp, 'C01.WMC.2')
     return EXPLANATION, ASSUMPTIONS, {'verdict_functions': sorted(V)}
